@@ -47,6 +47,12 @@ CHECKS = {
    note='Leak of the params/results block is not observable (double free / use-after-free are, via CBMC memory checks). Generated Subtask impls are mocked. Cleanup poison loop unwound for a 4-byte block with unwinding assertions.'),
 }
 
+CHECKS['C04'] = dict(
+   engine='exprvc', category='proof', design_ref='DESIGN.md §3 C04',
+   technique='contract harnesses on the real abi::cast (Kani/CBMC, loop-free, all type pairs x all bit patterns x both pointer widths) + verification conditions over the text the real per-backend Bitcast emitters produce (emitters extracted verbatim and run each run; z3 bit-vector proof per (backend, slot pair))',
+   text='Proved: (1) for every (payload type t, joined slot type j) a valid variant can produce (closure of the Canonical ABI join, proved inductively) the real cast(t,j)/cast(j,t) do not panic, are well typed step by step, the lowering keeps the payload bits (zero-extended/reinterpreted), the lifting is the low-bits wrap, and the round trip is the identity on every bit pattern at both pointer widths; (2) for each of the seven backends and each such pair, the text its real emitter produces for the real cast result lifts as the wrap of the joined slot and round-trips every payload bit pattern, under that language\'s (trusted) integer-conversion semantics.',
+   note='Trusted: the spec-side tables (join, widths, meaning of a conversion), the per-language semantics tables of vlib/exprvc.py, wit-parser\'s own join/push_flat. The upper bits a lowering writes into a wider slot are not constrained (the spec\'s lifting discards them); what each backend writes there (zero / sign fill / uninitialised) is reported in the evidence. Pointer width 32 for all backends, 64 additionally for Rust. z3 counterexamples are evaluated under the same table, not replayed natively.')
+
 NOT_APPLICABLE = {
  'C01': 'shared ABI generator is generic over Bindgen/Resolve with closures and iterator adapters (outside the Verus subset); Kani did not finish one tuple<u8,u32> through the real generator in 15 min (DESIGN §5)',
  'C02': 'same functions as C01: no contract within reach of Verus/Kani can express the calling convention over all signatures (DESIGN §5)',
@@ -72,7 +78,7 @@ NOT_APPLICABLE = {
 }
 # planned but not built yet: listed as not_applicable until their check exists
 PENDING = {k: 'check not built yet in this session (planned: DESIGN §7)' for k in
-           ['C04','C07','C14','C22','C23']}
+           ['C07','C14','C22','C23']}
 
 def main():
     props = [json.loads(l) for l in open(os.path.join(HERE, 'properties.jsonl'))]
